@@ -748,15 +748,43 @@ def r01_11(duke, R, S):
     # alignment
     al = duke.fn("align_to_4_byte_boundary", within="class_reader")
     if R.anchor("R01.11", "fn class_reader::align_to_4_byte_boundary", al):
-        ms = D.int_matches(al["body"], 3)
-        if R.anchor("R01.11", "match in align_to_4_byte_boundary", len(ms) == 1, sp=al["sp"]):
-            sc = H.peel(ms[0]["scrut"], refs=False)
-            masked = sc.get("k") == "bin" and sc["op"] == "&" and H.const_value(sc["r"]) == 3
-            R.inst("R01.11", "align-mask", masked, sp=al["sp"], expect="position & 0b11")
-            for k, pad in S["align4_padding"].items():
-                res, ev = D.eval_arm(ms[0], int(k))
-                n = sum(r[0] for r in D.reads_of(ev) if isinstance(r[0], int))
-                R.inst("R01.11", "align-padding:%s" % k, n == pad, sp=al["sp"], expect=pad, got=n)
+        # shape-independent: the body is evaluated with the stream position fixed at p = 0..7 and the bytes consumed are counted
+        # (a `match p & 3`, an arithmetic `skip((4 - p % 4) % 4)` and a loop-free if-chain all evaluate alike)
+        def padding_at(p):
+            ev = T.Evaluator(calls={"marker": (lambda args, p=p: T.V("Ok", ("i", p))), "position": (lambda args, p=p: T.V("Ok", ("i", p)))},
+                             inline=D.helper_inline(duke), max_inline=2)
+            try:
+                res = ev.ev(al["body"], {})
+            except T.Return as r:
+                res = r.v
+            except T.Break:
+                return "?break"
+            if res[0] == "err" or (res[0] == "v" and res[1] == "Err"):
+                return "error"
+            argv = {id(n): vals for n, vals in ev.callvals}
+            total = 0
+            for kind, n in ev.effects:
+                if kind != "callnode":
+                    continue
+                nm = H.callee_name(n)
+                if nm in D.READ_WIDTH and isinstance(D.READ_WIDTH[nm][0], int):
+                    total += D.READ_WIDTH[nm][0]
+                elif nm in ("skip", "skip_bytes", "seek_relative"):
+                    vals = argv.get(id(n)) or []
+                    v = vals[-1] if vals else None
+                    c = H.const_value(n["args"][-1]) if n.get("args") else None
+                    if v is not None and v[0] == "i":
+                        total += v[1]
+                    elif isinstance(c, int):
+                        total += c
+                    else:
+                        return "?skip(%s)" % (T.show(v) if v is not None else "?")
+            return total
+        for p in range(8):
+            want = S["align4_padding"][str(p & 3)]
+            got = padding_at(p)
+            R.inst("R01.11", "align-padding:position=%d" % p, got == want, sp=al["sp"], expect=want, got=got,
+                   detail="tableswitch/lookupswitch operands start at the next multiple of 4 (JVMS 6.5): 0..3 padding bytes, none when aligned")
     # element values
     for fn in ("read_element_value_unnamed", "read_element_value_named"):
         pass
